@@ -645,7 +645,7 @@ var Shape = map[string]Pat{
 	"version2.InternalRedirectLocation.Path": Alt(C(bare), Seq(T("~ "), C(bare)), Seq(T("~* "), C(bare))),   // raw route path; SUSPECT: regex route paths are escaped strings, not bare tokens
 	"version2.Location.Rewrites[]": Alt(
 		Seq(T("^ "), C(wvar), Opt(T(" break"))),       // ^ $request_uri break / ^ $request_uri_no_args
-		Seq(C(quote), T(" "), C(quote), T(" break"))), // "^path" "rewrite" break; SUSPECT: VS generateRewrites TrimSpace can expose a lone backslash
+		Seq(C(quote), T(" "), C(quote), T(" break"))), // "^path" "rewrite" break; VS generateRewrites strips the modifier and LEADING blanks only (TrimLeft since 0fa6833, F66 fixed): the expression stays an escaped string; SUSPECT only for a prefix / exact path holding a double quote (F53a)
 
 	// ---- helper functions
 	// version2/template_helper.go makeServerName: `server_name "<ServerName>";` or empty
@@ -749,7 +749,7 @@ var Suspect = map[string]string{
 	"version2.HealthCheck.GRPCService":        "^[^\\s{};]*$ admits a trailing backslash which swallows the terminating ;",
 	"version2.Location.Path":                  "regex route with action.redirect / action.return keeps the raw path (VS generateLocationForRedirect/Return), e.g. `~ [0-9a-z]{4}`",
 	"version2.InternalRedirectLocation.Path":  "raw route path for matches/splits; regex paths are escaped strings",
-	"version2.Location.Rewrites[]":            "VS generateRewrites: TrimSpace after stripping ~ can leave a lone backslash before the closing quote; internal non-regex path may hold a double quote",
+	"version2.Location.Rewrites[]":            "VS generateRewrites: an internal non-regex (prefix / exact) path may hold a double quote inside the quoted rewrite (F53a); the trailing-blank trim of regex paths is repaired (F66, 0fa6833)",
 	"version2.Map.Source":                     "rate-limit condition.jwt.claim guarded by the CRD schema pattern only (; { } backslash pass)",
 	"version2.Map.Variable":                   "same (rl group variable built from the claim)",
 	"version2.Parameter.Value":                "rate-limit condition.jwt.match printed bare, CRD pattern only",
